@@ -421,7 +421,31 @@ class Model(object):
         else:
             pub_spec = t.get('publish') if state == SUCCESS \
                 else t.get('publish-on-error')
+        # transition-level publish (advanced on-clause syntax): the
+        # on-complete clause and the clause of the task's state add branch
+        # and global variables.  Where two levels name the same variable
+        # the documentation is silent; the implementation merges without
+        # overwriting (task level, then on-complete, then the state's
+        # clause) and the model follows it.
+        glob_spec = {}
+        if state in (SUCCESS, ERROR):
+            for ck in ('on-complete-publish',
+                       'on-success-publish' if state == SUCCESS
+                       else 'on-error-publish'):
+                cp = t.get(ck) or {}
+                if cp.get('branch'):
+                    merged = dict(cp['branch'])
+                    merged.update(pub_spec or {})
+                    pub_spec = merged
+                for k, v in (cp.get('global') or {}).items():
+                    glob_spec.setdefault(k, v)
         try:
+            if glob_spec:
+                gv = self.eval_deep(glob_spec, self.layers(inst['ctx']), inst)
+                s.glob = dict(s.glob)
+                for k, v in gv.items():
+                    s.glob[k] = v
+                self._glob = s.glob
             if pub_spec:
                 pub = self.eval_deep(pub_spec, self.layers(inst['ctx']), inst)
             else:
